@@ -80,6 +80,34 @@ func (m *pair) interpenetrates(p v3.Vec) (bool, float64, float64) {
 	return e < -m.eps && n < -m.eps, e, n
 }
 
+const keyProfileFlip = "thread-mating:profile-sign-unstable-under-1e-6-pitch-radius-change(profile-polygon-quadtree)"
+
+// unstable diagnoses a mating failure: rebuild both threads with the nominal radius
+// moved by 1e-6*pitch and evaluate them at the same point. A rigid shift of a profile
+// changes its distance field by at most the shift; a change of more than 1e-4*pitch
+// means the profile polygon flips sign there (dropped / untiled quadtree pieces, the
+// C04 defect class) - the failure is then reported under keyProfileFlip.
+func (m *pair) unstable(p v3.Vec) (bool, string) {
+	d := 1e-6 * m.pitch
+	for _, sgn := range []float64{1, -1} {
+		m2, err := newPair(m.name, m.r+sgn*d, m.pitch, m.taper, m.tolE, m.tolI, m.lenE, m.lenN)
+		if err != nil {
+			continue
+		}
+		m2.alpha, m2.shift = m.alpha, m.shift
+		q := m.toNut(p)
+		e1, e2 := m.ext.Evaluate(p), m2.ext.Evaluate(p)
+		i1, i2 := m.int_.Evaluate(q), m2.int_.Evaluate(q)
+		if math.Abs(e1-e2) > 100*d {
+			return true, fmt.Sprintf("external thread field %v becomes %v when the radius moves by %v", e1, e2, sgn*d)
+		}
+		if math.Abs(i1-i2) > 100*d {
+			return true, fmt.Sprintf("internal thread field %v becomes %v when the radius moves by %v", i1, i2, sgn*d)
+		}
+	}
+	return false, ""
+}
+
 // flankRho finds, on the radial ray (dir, z) of the bolt frame, the radius where the
 // external thread surface is crossed (regula falsi with the Illinois rule on the
 // library's own field; this only AIMS points, it decides nothing).
@@ -268,6 +296,10 @@ func TestMating(t *testing.T) {
 				rec.Add("mate:points-inside-external", 1)
 			}
 			if bad {
+				if u, why := m.unstable(p); u {
+					rec.Violation(t, keyProfileFlip, "%s: p=%v ext=%v nutMaterial=%v: %s", m, p, e, nm, why)
+					continue
+				}
 				rec.Violation(t, "thread-mating:external-intersects-nut-material:"+seriesClass(std.series), "%s: p=%v ext=%v nutMaterial=%v (eps %v)", m, p, e, nm, m.eps)
 			}
 		}
@@ -324,6 +356,10 @@ func runMateCase(t *testing.T, rec *ev.Rec, c mateCase, count bool) {
 	}
 	bad, e, nm := m.interpenetrates(c.P)
 	if bad {
+		if u, why := m.unstable(c.P); u {
+			rec.FailCase(t, "TestMatingAll", keyProfileFlip, c, "%s: p=%v ext=%v nutMaterial=%v: %s", m, c.P, e, nm, why)
+			return
+		}
 		rec.FailCase(t, "TestMatingAll", "thread-mating:external-intersects-nut-material:"+seriesClassByTaper(taper), c, "%s: p=%v ext=%v nutMaterial=%v", m, c.P, e, nm)
 	}
 }
@@ -405,6 +441,10 @@ func TestMatingAll(t *testing.T) {
 						}
 						if bad {
 							c := mateCase{Name: std.name, MM: mm, TolE: tl[0], TolI: tl[1], LenE: ln[0], LenN: ln[1], P: p}
+							if u, why := m.unstable(p); u {
+								rec.FailCase(t, "TestMatingAll", keyProfileFlip, c, "%s: p=%v ext=%v nutMaterial=%v: %s", m, p, e, nm, why)
+								continue
+							}
 							rec.FailCase(t, "TestMatingAll", "thread-mating:external-intersects-nut-material:"+seriesClassByTaper(taper), c, "%s: p=%v ext=%v nutMaterial=%v (eps %v)", m, p, e, nm, m.eps)
 						}
 					}
@@ -483,6 +523,10 @@ func TestBoltNut(t *testing.T) {
 				rec.Add("boltnut:points-within-0.05pitch-of-flank", 1)
 			}
 			if bv < -eps && nv < -eps {
+				if u, why := aim.unstable(q); u {
+					rec.Violation(t, keyProfileFlip, "bolt %+v nut %+v: point %v (nut frame) bolt=%v nut=%v: bare threads: %s", *bp, *np, q, bv, nv, why)
+					continue
+				}
 				rec.Violation(t, "obj.Bolt/obj.Nut:interpenetrate:"+seriesClass(std.series), "bolt %+v nut %+v (nut centred at z=%v of the bolt): point %v (nut frame) bolt=%v nut=%v eps=%v", *bp, *np, centre, q, bv, nv, eps)
 			}
 		}
